@@ -12,8 +12,8 @@ PROP = "C18"
 WORKER = str(Path(__file__).resolve().parent / "c18_worker.py")
 
 
-def one(mod):
-    p = subprocess.run(["/venv/bin/python", WORKER, mod, str(vlib.SRC)], stdout=subprocess.PIPE,
+def one(mod, optimised=False):
+    p = subprocess.run(["/venv/bin/python"] + (["-O"] if optimised else []) + [WORKER, mod, str(vlib.SRC)], stdout=subprocess.PIPE,
                        stderr=subprocess.DEVNULL, text=True, timeout=300,
                        env={"PATH": "/usr/bin:/bin", "PYTHONHASHSEED": "0"})
     try:
@@ -71,6 +71,25 @@ def run(ck: vlib.Check):
                 extra = sorted(set(got["keys"]) - set(expected[reg]))
                 ck.violation(f"importing {m} first leaves registry {reg} incomplete: missing {missing[:6]} extra {extra[:6]}",
                              {"kind": "registry", "module": m, "registry": reg, "missing": missing, "extra": extra}, True)
+    # the same sweep under an optimising interpreter (python -O): registration must not depend on assert statements
+    with ThreadPoolExecutor(max_workers=vlib.NCPU) as ex:
+        results_o = list(ex.map(lambda m: one(m, True), mods))
+    for m, r, ro in zip(mods, results, results_o):
+        ck.evaluations += 1
+        if "raised" in r:
+            continue
+        if "raised" in ro:
+            ck.violation(f"under python -O, importing {m} first raises {ro['raised']}: {ro.get('msg')}",
+                         {"kind": "import", "optimised": True, "module": m, "result": ro}, True)
+            continue
+        for reg in range(4):
+            got = ro["regs"].get(str(reg))
+            if got is not None and (got["keys"] != sorted(expected[reg]) or got.get("dispatch_bad")):
+                missing = sorted(set(expected[reg]) - set(got["keys"]))
+                ck.violation(f"under python -O, importing {m} first leaves registry {reg} incomplete: missing {missing[:6]}",
+                             {"kind": "registry", "optimised": True, "module": m, "registry": reg, "missing": missing,
+                              "extra": sorted(set(got["keys"]) - set(expected[reg]))}, True)
+                break
     ck.extra["entry_points_after_which_each_registry_is_loaded"] = n_loaded
     ck.extra["modules"] = len(mods)
     if drv_ok:
@@ -108,7 +127,7 @@ def replay(path: str) -> int:
     print("replaying:", rp.get("what"))
     if rp.get("kind") in ("import", "registry"):
         import translate_imports
-        r = one(rp["module"])
+        r = one(rp["module"], bool(rp.get("optimised")))
         if "raised" in r:
             print("still failing: import raises", r)
             return 1
